@@ -31,6 +31,7 @@ out: for every `ser` and once more at the end (`serde_json::to_value(&profile)`)
     c<j> clen <length> <#count> <#number> <#timeDeltas>
     c<j> cdeltas <d>*
     c<j> crow <time> <count> <number>              count: integer | -0.0 | f<bits> | null
+    t<i> empty  /  c<j> empty                      short for an all-empty table (`len 0 0 0 0 0`, no deltas, `meta 0 0`, no allocs)
   or a single line
     panic op <j>        the j-th (0-based) op line panicked
     panic serialize     a serialization panicked
@@ -167,7 +168,9 @@ def showOut (o : Out) : List String :=
    joinWords "deltas" (o.deltas.map toString)]
   ++ rows.map fun r => s!"row {r.t} {showStack r.stack} {r.w} {r.cpu}"
 
+/-- an empty counter table is printed as the single line `empty` (= `clen 0 0 0 0`, `cdeltas`) -/
 def showCOut (o : COut) : List String :=
+  if o.count.isEmpty ∧ o.number.isEmpty ∧ o.deltas.isEmpty then ["empty"] else
   let ts := runningSums 0 o.deltas
   let rows := (mkCRows ts o.count o.number).mergeSort crowLe
   [s!"clen {ts.length} {o.count.length} {o.number.length} {o.deltas.length}",
@@ -183,9 +186,14 @@ def showAllocs (a : AllocTable) : List String :=
   [s!"allocs {n} {a.time.length} {a.size.length} {a.stack.length} {a.addr.length} {n}"]
   ++ (zip4 a.time a.stack a.addr a.size).map fun (t, s, ad, z) => s!"arow {t} {showStack s} {ad} {z}"
 
+/-- a thread nothing has happened to is printed as the single line `empty` (= `len 0 0 0 0 0`, `deltas`, `meta 0 0`, no
+`allocs`) -/
 def showTSnap (t : TSnap) : List String :=
-  showOut t.samples ++ [s!"meta {t.wtype} {t.markers}"] ++
-    (match t.allocs with | none => [] | some a => showAllocs a)
+  if t.samples.stack.isEmpty ∧ t.samples.deltas.isEmpty ∧ t.samples.weight.isEmpty ∧ t.samples.cpu.isEmpty
+      ∧ t.wtype = 0 ∧ t.markers = 0 ∧ t.allocs.isNone then ["empty"]
+  else
+    showOut t.samples ++ [s!"meta {t.wtype} {t.markers}"] ++
+      (match t.allocs with | none => [] | some a => showAllocs a)
 
 def prefixed (p : String) (ls : List String) : List String := ls.map fun l => p ++ " " ++ l
 
@@ -284,7 +292,8 @@ def markersOf (i : Nat) (ops : List POp) : Nat :=
   (ops.filter fun op => match op with | .marker j => j == i | _ => false).length
 
 /-- one thread of one snapshot against the calls made before the snapshot; `none` = fine -/
-def judgeThread (i : Nat) (pre : List POp) (lines : List (List String)) : Option String :=
+def judgeThread (i : Nat) (pre : List POp) (lines0 : List (List String)) : Option String :=
+  let lines := if lines0 = [["empty"]] then [["len", "0", "0", "0", "0", "0"], ["deltas"], ["meta", "0", "0"]] else lines0
   let p := parseImpl lines
   match p.bad, p.deltas with
   | some why, _ => some why
@@ -311,7 +320,8 @@ def judgeThread (i : Nat) (pre : List POp) (lines : List (List String)) : Option
         else if p.arows ≠ want then some "frame: nativeAllocations rows are not the allocation calls in call order"
         else none
 
-def judgeCounter (j : Nat) (pre : List POp) (lines : List (List String)) : Option String :=
+def judgeCounter (j : Nat) (pre : List POp) (lines0 : List (List String)) : Option String :=
+  let lines := if lines0 = [["empty"]] then [["clen", "0", "0", "0", "0"], ["cdeltas"]] else lines0
   let p := parseImpl lines
   match p.bad, p.cdeltas with
   | some why, _ => some why
